@@ -149,6 +149,14 @@ def gen(rng, family, **opts):
         "calc": {"kind": opts.get("calc", "soft"), "style": pick(rng, opts.get("styles", ["plain", "keyed"]))},
         "table": gen_table(rng, family, mol, opts),
     }
+    # scheduling variety: minimum counts (never over-committing the cycles) and intervals
+    budget = spec["cycles"]
+    for e in spec["table"]:
+        if budget > 0 and rng.random() < 0.3:
+            e["min"] = int(rng.integers(1, budget + 1))
+            budget -= e["min"]
+        if rng.random() < 0.2:
+            e["interval"] = int(rng.integers(2, 4))
     if family == "hamiltonian":
         spec["calc"] = {"kind": "harmonic", "k": 1.5, "q": 0.3, "style": spec["calc"]["style"]}
         spec["atoms"]["pbc"] = False
